@@ -4,6 +4,7 @@ from ..contracts import membrane as CM
 from ..nativeio import differential
 
 ID = "C12"
+NATIVE_BOUNDED = (20, 200)        # (quick, thorough) native corpus sizes - bounded stand-in for rounding effects
 MIN_OBLIGATIONS = 40
 KG = CM.KG
 Tq = var('Tq')            # query temperature
